@@ -1,37 +1,100 @@
-(** A-shape: a syntactic check on the grammar program (gen/GenGrammar.v) that makes every Identifier node the
-    parser builds EMPTY or [Id token; trivia...] (AstToCore.ident_shape): the kind Identifier is opened only by
-    the pattern of grammar/value.rs `fn identifier`
-        start_node(Identifier); if eat_if(Id) { finish_node(); b } else { finish_node(); b' }
-    and by no other start_node / start_node_at.  Soundness for every program: proofs/ShapeSound.v.
+(** A-shape: a small ABSTRACT INTERPRETATION of the grammar program (gen/GenGrammar.v) that makes every Identifier
+    node the parser builds EMPTY or [Id token; more tokens...] (AstToCore.ident_shape).  It does not look for one
+    particular rendering of grammar/value.rs `fn identifier`: it follows what is open and what has been pushed.
+
+    Abstract state = what the innermost open node is:
+      NoId       no Identifier node is open (anywhere on the builder stack)
+      IdEmpty    the innermost open node is an Identifier without children
+      IdStarted  the innermost open node is an Identifier whose first child is an Id token
+      IdOk       IdEmpty or IdStarted (a join)
+      Bot        unreachable
+    [an e a] = (state when e evaluates to true, state when it evaluates to false); conditions are followed
+    path-sensitively (`if eat_if(Id) {..} else {..}` as well as `let r = eat_if(Id); finish_node(); r`).
+    While an Identifier is open: no node may be opened, no function called, no loop run, and the first token pushed
+    must come from eat_if(Id) / assert(Id).  Soundness for every program: proofs/ShapeSound.v.
     Executable definitions only. *)
 From Coq Require Import List NArith Bool.
 From TG.Gen Require Import GenTokens.
 From TG.Model Require Import Chars Lexer Prep Tree ParserPrims GInterp.
 Import ListNotations.
 
-Definition is_ident_pat (e : expr) : bool :=
+Inductive ast : Set := Bot | NoId | IdEmpty | IdStarted | IdOk.
+
+Definition join (a b : ast) : option ast :=
+  match a, b with
+  | Bot, x | x, Bot => Some x
+  | NoId, NoId => Some NoId
+  | NoId, _ | _, NoId => None
+  | IdEmpty, IdEmpty => Some IdEmpty
+  | IdStarted, IdStarted => Some IdStarted
+  | _, _ => Some IdOk
+  end.
+(** [le_noid a]: a is NoId or unreachable *)
+Definition le_noid (a : ast) : bool := match a with Bot | NoId => true | _ => false end.
+Definition same (a : ast) : option (ast * ast) := Some (a, a).
+
+Definition an_prim (pr : prim) (a : ast) : option (ast * ast) :=
+  match a with
+  | Bot => same Bot
+  | _ =>
+    match pr with
+    | PStartNode k =>
+        match a with NoId => same (if sk_eqb k S_Identifier then IdEmpty else NoId) | _ => None end
+    | PFinishNode => same NoId
+    | PCheckpoint | PError _ | PAtSet _ => same a
+    | PStartNodeAt _ k =>
+        match a with NoId => if sk_eqb k S_Identifier then None else same NoId | _ => None end
+    | PAssert k =>
+        match a with
+        | NoId => same NoId | IdStarted => same IdStarted
+        | IdEmpty => if tk_eqb k T_Id then same IdStarted else None
+        | _ => None
+        end
+    | PEatIf k =>
+        match a with
+        | NoId => same NoId | IdStarted => same IdStarted
+        | IdEmpty => if tk_eqb k T_Id then Some (IdStarted, IdEmpty) else None
+        | _ => None
+        end
+    | PExpect _ _ | PEat | PSkip =>
+        match a with NoId => same NoId | IdStarted => same IdStarted | _ => None end
+    | PErrorAndEat _ | PErrorAndRecover _ =>
+        match a with NoId => same NoId | _ => None end
+    end
+  end.
+
+Definition obind {A B} (o : option A) (f : A -> option B) : option B := match o with Some x => f x | None => None end.
+
+Fixpoint an (e : expr) (a : ast) : option (ast * ast) :=
   match e with
-  | ESeq (EPrim (PStartNode k))
-         (EIf (EPrim (PEatIf tk)) (ESeq (EPrim PFinishNode) (EB _)) (ESeq (EPrim PFinishNode) (EB _))) =>
-      sk_eqb k S_Identifier && tk_eqb tk T_Id
-  | _ => false
+  | EB true => Some (a, Bot)
+  | EB false => Some (Bot, a)
+  | EVar _ => same a
+  | ENot x => obind (an x a) (fun r => Some (snd r, fst r))
+  | EPrim pr => an_prim pr a
+  | ECall _ _ => match a with Bot => same Bot | NoId => same NoId | _ => None end
+  | ESeq x y => obind (an x a) (fun r => obind (join (fst r) (snd r)) (fun a1 => an y a1))
+  | EIf c x y =>
+      obind (an c a) (fun rc =>
+      obind (an x (fst rc)) (fun rx =>
+      obind (an y (snd rc)) (fun ry =>
+      obind (join (fst rx) (fst ry)) (fun t =>
+      obind (join (snd rx) (snd ry)) (fun f => Some (t, f))))))
+  | EWhile c b =>
+      match a with
+      | Bot => same Bot
+      | NoId =>
+          obind (an c NoId) (fun rc =>
+          obind (an b NoId) (fun rb =>
+          if le_noid (fst rc) && le_noid (snd rc) && le_noid (fst rb) && le_noid (snd rb) then same NoId else None))
+      | _ => None
+      end
+  | EBreak => if le_noid a then same Bot else None
+  | EReturn x => obind (an x a) (fun r => if le_noid (fst r) && le_noid (snd r) then same Bot else None)
+  | ESet _ x => obind (an x a) (fun r => obind (join (fst r) (snd r)) (fun j => same j))
   end.
 
-Definition prim_ok (pr : prim) : bool :=
-  match pr with
-  | PStartNode k | PStartNodeAt _ k => negb (sk_eqb k S_Identifier)
-  | _ => true
-  end.
-
-Fixpoint shape_chk (e : expr) : bool :=
-  is_ident_pat e ||
-  match e with
-  | EB _ | EVar _ | EBreak | ECall _ _ => true
-  | ENot a | EReturn a | ESet _ a => shape_chk a
-  | EPrim pr => prim_ok pr
-  | ESeq a b => shape_chk a && shape_chk b
-  | EIf c a b => shape_chk c && shape_chk a && shape_chk b
-  | EWhile c b => shape_chk c && shape_chk b
-  end.
-
+(** every function body, entered with no Identifier open, leaves none open on every exit *)
+Definition shape_chk (body : expr) : bool :=
+  match an body NoId with Some (t, f) => le_noid t && le_noid f | None => false end.
 Definition shape_chk_prog (p : prog) : bool := forallb shape_chk (fns p).
